@@ -199,7 +199,7 @@ def replay_history(beh, dtype=torch.float64):
                     # quantities (exact only on the Krylov space, property C06/C05): they are *executed* (they fill the caches that
                     # later queries read) but their values are judged by C05/C06, not here.
                     lanczos_valued = "max_cholesky_size_0" in toggles and (
-                        name in ("logdet", "inv_quad_logdet", "sample") or (name in ("root_decomposition", "root_inv_decomposition", "diagonalization") and arg == 0))
+                        name in ("logdet", "inv_quad_logdet", "sample", "root_decomposition", "root_inv_decomposition", "diagonalization"))
                     if name == "sample":
                         if lanczos_valued:
                             o.zero_mean_mvn_samples(1)
@@ -292,7 +292,7 @@ def run(tier, seed):
     for inst, cls in enumerate(INST, start=1):
         t, diag_like = honors_table(cls)
         depth = 2 if tier == "quick" else 3
-        c = dict(Depth=depth, Emit=True, Inst=inst, Seed=seed, DiagLike=diag_like, H_cholesky=t["cholesky"], H_root=t["root_decomposition"],
+        c = dict(Depth=depth, Emit=True, Inst=inst, Seed=seed, ValSeed=seed, DiagLike=diag_like, H_cholesky=t["cholesky"], H_root=t["root_decomposition"],
                  H_rootinv=t["root_inv_decomposition"], H_diag=t["diagonalization"], H_svd=t["svd"], H_todense=t["to_dense"])
         r = tlc.run("LOCache", "c12.%s.%d" % (tier, inst), constants=c, invariants=["CacheOwned", "CacheValid", "EmitInv"],
                     properties=["DenStable"], workers=16, timeout=3000, heap="12g")
@@ -308,7 +308,7 @@ def run(tier, seed):
         # plus a slice of the depth-3 histories of two instances
         for inst in (1, 6):
             t, diag_like = honors_table(INST[inst - 1])
-            c = dict(Depth=3, Emit=True, Inst=inst, Seed=seed, DiagLike=diag_like, H_cholesky=t["cholesky"], H_root=t["root_decomposition"],
+            c = dict(Depth=3, Emit=True, Inst=inst, Seed=seed, ValSeed=seed, DiagLike=diag_like, H_cholesky=t["cholesky"], H_root=t["root_decomposition"],
                      H_rootinv=t["root_inv_decomposition"], H_diag=t["diagonalization"], H_svd=t["svd"], H_todense=t["to_dense"])
             r = tlc.run("LOCache", "c12.q3.%d" % inst, constants=c, invariants=["CacheOwned", "CacheValid", "EmitInv"], workers=16,
                         timeout=3000, heap="12g")
@@ -317,7 +317,7 @@ def run(tier, seed):
             behs += sorted(r["out"], key=lambda b: json.dumps(b["steps"], sort_keys=True))[inst::7]
     # non-vacuity of the key discipline: a table in which cholesky ignores its arguments must be rejected for a non-diagonal class
     t, _ = honors_table("Dense")
-    rv = tlc.run("LOCache", "c12.bad", constants=dict(Depth=2, Emit=False, Inst=1, Seed=seed, DiagLike=False, H_cholesky=False, H_root=True,
+    rv = tlc.run("LOCache", "c12.bad", constants=dict(Depth=2, Emit=False, Inst=1, Seed=seed, ValSeed=seed, DiagLike=False, H_cholesky=False, H_root=True,
                                                       H_rootinv=True, H_diag=True, H_svd=True, H_todense=True),
                  invariants=["CacheValid"], workers=8, timeout=600, heap="4g")
     if rv["violated"] != "CacheValid":
